@@ -594,6 +594,7 @@ def _parse_transf_v33(raw, system, max_bus):
                          'x': x[i],
                          'tap': data[2+i][0],
                          'phi': data[2+i][2] * deg2rad,
+                         'Sn': system.config.mva,
                          'Vn1': system.Bus.get(src='Vn', idx=data[0][i], attr='v'),
                          'Vn2': 1.0,
                          }
